@@ -69,7 +69,7 @@ theorem step_inv {s : St} {c : List Name} {op : Op} (hi : Inv s c)
       have hn' : n ∈ s.dir := hh n (Decidable.not_not.mp hn)
       have hp := callStep_preserves (c := cl) hn' (by simpa [Op.stages] using hf)
       simp only [hp]
-      exact ⟨trivial, hh⟩
+      exact ⟨rfl, hh⟩
   | drop n dirty st =>
     simp only [step, callerStep]
     split
@@ -83,7 +83,7 @@ theorem step_inv {s : St} {c : List Name} {op : Op} (hi : Inv s c)
           simp only [if_true]
           exact runStage_preserves hn' (hf st (by simp [Op.stages]))
       simp only [hp]
-      exact ⟨trivial, fun m hm => hh m (List.mem_of_mem_erase hm)⟩
+      exact ⟨rfl, fun m hm => hh m (List.mem_of_mem_erase hm)⟩
   | forget n =>
     simp only [step, callerStep]
     split
@@ -101,7 +101,7 @@ theorem step_inv {s : St} {c : List Name} {op : Op} (hi : Inv s c)
         · have hp := runStages_preserves (n := n) (Decidable.not_not.mp hn) (sts := rounds)
             (by simpa [Op.stages] using hf)
           simp only [hp]
-          exact ⟨trivial, hh⟩
+          exact ⟨rfl, hh⟩
   | ext e =>
     simp only [step, callerStep]
     refine ⟨rfl, ?_⟩
@@ -423,6 +423,30 @@ theorem C19_each_sidecar_refuses (s : St) (n c : Name) (hc : c ∈ candidates n)
 
 /-! ## non-vacuity -/
 
+/-- executable form of `Untampered` (for checking concrete histories) -/
+def opUntamperedB (s : St) : Op → Bool
+  | .ext (.unlink x) => decide (x ∉ s.handles)
+  | .ext (.rename a _) => decide (a ∉ s.handles)
+  | _ => true
+
+def untamperedB : St → List Op → Bool
+  | _, [] => true
+  | s, op :: rest => opUntamperedB s op && untamperedB (step s op).1 rest
+
+theorem untampered_of_B : ∀ (h : List Op) (s : St), untamperedB s h = true → Untampered s h := by
+  intro h
+  induction h with
+  | nil => intro s _; trivial
+  | cons op rest ih =>
+    intro s hb
+    simp only [untamperedB, Bool.and_eq_true] at hb
+    unfold Untampered
+    refine ⟨?_, ih _ hb.2⟩
+    have h1 := hb.1
+    cases op with
+    | ext e => cases e <;> simp_all [opUntamperedB]
+    | _ => trivial
+
 /-- a history with a rejected put, an auto-commit, a failed commit, a plain commit, a refused second
     `create` (planted `-wal`), a vacuum, a dirty drop, a reopen and a doctor run with two internal
     commits satisfies the premises; its directory ends as the memory plus the caller's own file -/
@@ -440,7 +464,7 @@ example :
     simp only [List.mem_cons, List.not_mem_nil, or_false] at ho
     rcases ho with rfl | rfl | rfl | rfl | rfl | rfl | rfl | rfl | rfl | rfl | rfl | rfl | rfl | rfl <;>
       simp [Op.stages, Call.stages] at hst <;> (try rcases hst with rfl | rfl) <;> simp_all [Stage.isCommitFault]
-  · decide
+  · exact untampered_of_B _ _ (by decide)
   · decide
   · decide
 
